@@ -19,7 +19,7 @@ FAMILIES = {
     'C06': ['batch'],
     'C07': ['recover', 'ibc', 'stake'],
     'C08': ['auth', 'ownership', 'recover', 'rewards', 'batch'],
-    'C09': ['rewards', 'batch', 'config'],
+    'C09': ['rewards', 'batch', 'config', 'migrate'],
     'C10': ['halt', 'auth'],
     'C11': ['rewards', 'fee_withdraw'],
     'C12': ['ownership', 'treasury_ownership'],
@@ -27,6 +27,7 @@ FAMILIES = {
     'C14': ['validation', 'config'],
     'C15': ['stake', 'rewards', 'batch', 'auth'],
     'C17': ['queries'],
+    'C18': ['migrate'],
     'C16': ['stake', 'rewards', 'batch', 'auth', 'ownership', 'fee_withdraw', 'validation', 'recover', 'halt', 'config',
             'queries', 'treasury', 'treasury_ownership', 'ibc'],
 }
